@@ -588,7 +588,10 @@ class Job:
             The job document handle.
 
         """
-        self.document.reset(new_doc)
+        document = self.document
+        # Resetting a collection with itself empties it if it has not loaded its data yet.
+        if new_doc is not document:
+            document.reset(new_doc)
 
     @property
     def doc(self):
